@@ -164,7 +164,10 @@ def is_transparent(ctx: Ctx, f: FuncInfo) -> bool:
             if isinstance(n, ast.Call):
                 t = norm(n.func)
                 if not ("internal_messages" in t):
-                    return False
+                    # building the key as a record of the package (a NamedTuple spelling of the tuple) is pure
+                    d_ = ctx.prog.resolve_expr(f.module, n.func) if isinstance(n.func, (ast.Name, ast.Attribute)) else None
+                    if not (d_ is not None and d_.kind == "class" and ctx.I.record_fields(d_.obj) is not None):
+                        return False
             if isinstance(n, (ast.Await, ast.Raise, ast.Return)):
                 return False
             if isinstance(n, ast.Attribute) and isinstance(n.ctx, ast.Store):
